@@ -2,17 +2,22 @@
    Types and values use the syntax of drv_rt.ml (parsers copied: every area has its
    own extracted types).  A frame is given by the tokens
      <mode> <idty> <tags> <ncols> <ngroups> ( <n> ( <idval> <ty>{ncols} ){n} ){ngroups}
-   mode = spec (X.681: every object written is a row) | comp (the table asn1c emits);
+   mode = spec (X.681: every object written is a row) | comp (the table asn1c emits, `long` cells)
+        | wide (the table asn1c emits under -fwide-types: INTEGER_t cells, octets; the identifier member is
+          an INTEGER_t and the selector compares octets).  A set the compiler refuses gives REFUSED.
    tags = comma-separated EXPLICIT tags of the open-type members, - = none.
    commands (p = presence index, 0 = no row):
      c18sel <frame> <idval>                  -> <p>
      c18der|c18uper <frame> <idval> (<p> <val>)*   -> hex | NONE
      c18dec <frame> <hex>                    -> OK <consumed> <idval> (<p> <val>)* | FAIL
-     c18uperdec <frame> <hex>                -> same *)
+     c18uperdec <frame> <hex>                -> same
+     c18cells <frame>                        -> <cell> ... (identifier cells of the table, I<z>; or O<hex>;) | EMPTY
+     c18selraw <frame> <hex>                 -> <p>   (wide: the selector on raw INTEGER_t contents octets) *)
 open Model
 open Drvlib
 
 exception Parse of string
+exception Refused
 
 let parse_num s pos : z option * int =
   let n = String.length s in
@@ -115,6 +120,8 @@ let rec take n l = if n = 0 then ([], l) else match l with
   | x :: r -> let (a, b) = take (n - 1) r in (x :: a, b)
   | [] -> raise (Parse "missing tokens")
 
+let cur_rep = ref RNative
+
 let parse_frame (toks : string list) : frame * string list =
   match toks with
   | mode :: idty :: tags :: ncols :: ngroups :: rest ->
@@ -131,9 +138,16 @@ let parse_frame (toks : string list) : frame * string list =
               rest := r;
               (val_of (List.hd ts), List.map ty_of (List.tl ts)))
         | [] -> raise (Parse "missing group")) in
-      let tbl = if mode = "spec" then spec_table groups
-                else if mode = "comp" then compile_table groups
-                else raise (Parse "mode") in
+      let emitted rep = match emit_table rep groups with Some t -> t | None -> raise Refused in
+      let (tbl, rep) =
+        if mode = "spec" then (spec_table groups, RNative)
+        else if mode = "comp" then
+          (let t = emitted RNative in
+           if t <> compile_table groups then raise (Parse "emit_table RNative <> compile_table");
+           (t, RNative))
+        else if mode = "wide" then (emitted RWide, RWide)
+        else raise (Parse "mode") in
+      cur_rep := rep;
       ({ f_idt = ty_of idty; f_opens = tags; f_tbl = tbl }, !rest)
   | _ -> raise (Parse "frame expected")
 
@@ -149,12 +163,24 @@ let dec_s = function
   | Some (fv, n) -> Printf.sprintf "OK %s %s" (string_of_cz n) (show_fval fv)
   | None -> "FAIL"
 
-let dispatch cmd args =
+let rec dispatch cmd args =
+  try dispatch0 cmd args with Refused -> Some "REFUSED"
+and dispatch0 cmd args =
   match cmd with
+  | "c18cells" ->
+      let (f, _) = parse_frame args in
+      Some (match f.f_tbl with [] -> "EMPTY" | t -> String.concat " " (List.map (fun (c, _) -> show_val c) t))
+  | "c18selraw" ->
+      let (f, rest) = parse_frame args in
+      (match rest with
+       | [h] -> Some (match select_octets f.f_tbl (bytes_of_hex h) with
+                      | Some (i, _) -> string_of_int (int_of_nat i + 1)
+                      | None -> "0")
+       | _ -> Some "BADARG")
   | "c18sel" ->
       let (f, rest) = parse_frame args in
       (match rest with
-       | [idv] -> Some (match select f.f_tbl (val_of idv) with
+       | [idv] -> Some (match select_rep !cur_rep f.f_tbl (val_of idv) with
                         | Some (i, _) -> string_of_int (int_of_nat i + 1)
                         | None -> "0")
        | _ -> Some "BADARG")
@@ -168,11 +194,11 @@ let dispatch cmd args =
   | "c18dec" ->
       let (f, rest) = parse_frame args in
       (match rest with
-       | [h] -> Some (dec_s (ber_decode_frame f (bytes_of_hex h)))
+       | [h] -> Some (dec_s (ber_decode_frame_rep !cur_rep f (bytes_of_hex h)))
        | _ -> Some "BADARG")
   | "c18uperdec" ->
       let (f, rest) = parse_frame args in
       (match rest with
-       | [h] -> Some (dec_s (uper_decode_frame f (bytes_of_hex h)))
+       | [h] -> Some (dec_s (uper_decode_frame_rep !cur_rep f (bytes_of_hex h)))
        | _ -> Some "BADARG")
   | _ -> None
